@@ -308,7 +308,7 @@ Proof.
       unfold us in R. rewrite R. rewrite <- Eu. unfold unit_toks.
       unfold wf_unit in Hwu. apply andb_true_iff in Hwu. destruct Hwu as [_ Hwr].
       assert (Hlt : (k' < rec_len (snd u))%nat).
-      { rewrite <- Eu in E2. unfold unit_toks in E2. rewrite rec_args_length in E2. exact E2. }
+      { unfold us in E2. rewrite <- Eu in E2. unfold unit_toks in E2. rewrite rec_args_length in E2. exact E2. }
       pose proof (RL_partial_rec (fst u) (snd u) k' ms' rs' Hwr ltac:(lia) Hlt) as P.
       destruct (RL (firstn k' (rec_args (fst u) (snd u))) ms' rs') as [[a b]|e|]; try discriminate. reflexivity.
 Qed.
